@@ -279,6 +279,19 @@ func (x *Exec) shouldAutoInline(fn *ssa.Function, depth int) bool {
 func (x *Exec) callFunc(st *State, v *ssa.Call, callee *ssa.Function, args []Value, bindings []Value, cn callName) bool {
 	fr := st.frameTop()
 	key := FuncKey(callee)
+	if key == "sync.(*Once).Do" && len(args) == 2 {
+		// both histories: this is the first call (the function runs) or a later one (it is skipped)
+		if fv, ok := args[1].(FuncV); ok && fv.Fn != nil && len(fv.Fn.Blocks) > 0 {
+			if x.countPath() {
+				other := st.fork()
+				other.frameTop().env[v] = TupleV{}
+				x.work = append(x.work, other)
+			}
+			x.notes["sync.Once.Do: both histories are explored (the first call runs the function, a later call skips it)"] = true
+			x.pushFrame(st, fv.Fn, nil, v, fv.Bindings)
+			return true
+		}
+	}
 	top := x.contract
 	ct := x.db.Funcs[key]
 	qual := callee.Name()
@@ -299,6 +312,29 @@ func (x *Exec) callFunc(st *State, v *ssa.Call, callee *ssa.Function, args []Val
 		names := make([]string, len(callee.Params))
 		for i, p := range callee.Params {
 			names[i] = p.Name()
+		}
+		if ct.ParamNames != "" {
+			// "params a b": the contract's own names for the (non-receiver) parameters, for
+			// functions whose parameter names differ between build variants
+			off := 0
+			if callee.Signature.Recv() != nil {
+				off = 1
+			}
+			for i, n := range strings.Fields(strings.ReplaceAll(ct.ParamNames, ",", " ")) {
+				if off+i < len(names) {
+					names[off+i] = n
+				}
+			}
+		}
+		if len(ct.FreshOrNil) > 0 && x.countPath() {
+			// the history in which the "nil or new" results are nil
+			other := st.fork()
+			x.nilFreshFork = true
+			x.applyContract(other, ct, callee.Signature, names, args, v, cn)
+			x.nilFreshFork = false
+			if !other.dead {
+				x.work = append(x.work, other)
+			}
 		}
 		x.applyContract(st, ct, callee.Signature, names, args, v, cn)
 		return !st.dead
@@ -434,6 +470,11 @@ func (x *Exec) applyContract(st *State, ct *Contract, sig *types.Signature, name
 		}
 		if isFresh {
 			o := b.Int(st.newObjID())
+			for _, n := range rnames[i] {
+				if ct.FreshOrNil[n] && x.nilFreshFork {
+					o = b.Int(0)
+				}
+			}
 			switch r := rv.(type) {
 			case SliceV:
 				r.Obj, r.Off = o, b.Int(0)
@@ -1060,6 +1101,15 @@ func (x *Exec) userAsserts(st *State, fr *Frame, cn callName, after bool) {
 					}
 				}
 			}
+		}
+		if a.Bind != "" {
+			nl := map[string]Value{}
+			for k, v := range fr.lets {
+				nl[k] = v
+			}
+			nl[a.Bind] = x.eval(ctx, a.E)
+			fr.lets = nl
+			continue
 		}
 		if a.Lemma != "" {
 			lm := x.db.lemma(a.Lemma)
